@@ -24,7 +24,23 @@ import (
 // c12 scenario: 4 genesis validators; node 3 goes silent early (lagging, with
 // history), key 4 joins with fast-sync (fresh joiner, catching up), nodes 0-2
 // keep going until anchors exist.
-func c12Build(steps int) *sched.Exec {
+func c12Build(steps int) *sched.Exec { return c12BuildN(4, steps) }
+
+// c12BuildN: n=4 is the scenario above; n=3 has no lagging validator (two of three cannot make progress alone):
+// three validators and a fast-sync joiner (key 3).
+func c12BuildN(n, steps int) *sched.Exec {
+	if n == 3 {
+		seed := sched.FairSeed(nodesOf(3), 8, 4)
+		seed = append(seed, sched.Action{K: "Start", A: 3, B: 0, Lim: 1}, sched.Action{K: "J", A: 3, B: 0})
+		seed = append(seed, sched.FairSeed(nodesOf(3), steps, 4)...)
+		sc := &sched.Scenario{Name: "c12n3", Cfg: sim.Config{N: 3}, Asked: map[int]int{3: 0}}
+		x := sched.NewExec(sc, nil)
+		x.NoDigest = true
+		for _, a := range seed {
+			x.Step(a)
+		}
+		return x
+	}
 	seed := sched.FairSeed(nodesOf(4), 8, 4)
 	seed = append(seed, sched.Action{K: "S", A: 3}, sched.Action{K: "Start", A: 4, B: 0, Lim: 1}, sched.Action{K: "J", A: 4, B: 0})
 	seed = append(seed, sched.FairSeed(nodesOf(3), steps, 4)...)
@@ -91,6 +107,7 @@ type FFItem struct {
 	From   int    `json:"from"`
 	To     int    `json:"to"`
 	Stride int    `json:"stride"`
+	N      int    `json:"n,omitempty"` // 3: the three-validator variant of the scenario (default 4)
 }
 
 type FFResult struct {
@@ -132,7 +149,12 @@ func init() {
 			if x != nil {
 				x.Close()
 			}
-			x = c12Build(48)
+			if it.N == 3 {
+				// short enough for the anchor to lie before the joiner's effective round (a three-member set)
+				x = c12BuildN(3, 26)
+			} else {
+				x = c12Build(48)
+			}
 			base = validFF(x.C, 1, it.Target)
 			if it.Level == "node" || it.Level == "forged-node" {
 				if x.C.Nodes[it.Target].Node.GetState() != state.CatchingUp {
@@ -144,6 +166,9 @@ func init() {
 		defer func() { x.Close() }()
 		if base == nil {
 			return nil, fmt.Errorf("no anchor at the serving node")
+		}
+		if it.N == 3 && len(base.Frame.Peers) != 3 {
+			return nil, fmt.Errorf("the three-validator base offers an anchor with %d validators", len(base.Frame.Peers))
 		}
 		var muts []tamper.Mut
 		var forged []*net.FastForwardResponse
@@ -360,6 +385,9 @@ func init() {
 			}
 			n := len(tamper.Enumerate(base, [][]byte{sim.PubOf(9)}))
 			chunk := 30
+			// three validators (the smallest set in which one signature is not more than a third): the untampered
+			// response and the signature-map attacks only
+			items = append(items, FFItem{N: 3, Target: 3, Level: "core"}, FFItem{N: 3, Target: 3, Level: "node"})
 			for _, target := range []int{4, 3, 0} {
 				for _, lvl := range []string{"core", "node"} {
 					if lvl == "node" && target == 0 && !th {
@@ -428,7 +456,7 @@ func init() {
 		}
 		cov["samples"] = samples
 		if prop == "C12" {
-			cov["rule"] = "a valid (block, frame, snapshot) triple served by an honest node of a 4-validator + joiner history, JSON-copied, with every single field replaced by every value of the hostile grammar (reflection over block body, signature map incl. the same signer under re-encoded keys, frame round/timestamp/peers/roots/events/peer-set history, snapshot) plus targeted signature-map attacks (signatures removed down to and below the threshold, signature of another body, non-member signer, one signer under several spellings); presented to a fresh joiner, a lagging validator with history and a validator that is ahead, at core.fastForward and through the node's own Node.fastForward against a hostile responder. Oracle: adopted => the harness's own predicate (frame hashes to FrameHash, frame peers hash to PeersHash, valid signatures of > n/3 distinct members); refused => digest of hashgraph, store, validator sets, head AND application unchanged. Each attempt is distinct (distinct_nontrivial = attempts)"
+			cov["rule"] = "a valid (block, frame, snapshot) triple served by an honest node of a 4-validator + joiner history (and, for the signature-map attacks, of a 3-validator + joiner history), JSON-copied, with every single field replaced by every value of the hostile grammar (reflection over block body, signature map incl. the same signer under re-encoded keys, frame round/timestamp/peers/roots/events/peer-set history, snapshot) plus targeted signature-map attacks (signatures removed down to and below the threshold, signature of another body, non-member signer, one signer under several spellings); presented to a fresh joiner, a lagging validator with history and a validator that is ahead, at core.fastForward and through the node's own Node.fastForward against a hostile responder. Oracle: adopted => the harness's own predicate (frame hashes to FrameHash, frame peers hash to PeersHash, valid signatures of > n/3 distinct members); refused => digest of hashgraph, store, validator sets, head AND application unchanged. Each attempt is distinct (distinct_nontrivial = attempts)"
 		} else {
 			cov["rule"] = "forged responses built from a real, self-consistent network of 1..4 strangers (harness keys 10..13 run as their own babble network; its genuine anchor block, frame and snapshot are correctly signed by all of them), with variations (a known peer listed in the forged set but not signing, a known peer with an invalid signature, block index rewritten and re-signed by the strangers); presented to a fresh joiner, a lagging validator and a validator that is ahead at core.fastForward and through Node.fastForward (the forger answering every request); and to a newcomer that is still Joining, whose join request the forger answers itself with accepted=true and a peer list made of the forged validator set before serving the forged response (real Node.join, then Node.fastForward). Oracle: a response without a valid signature from any key in the peer list the node was started with, its genesis peers or its stored validator sets must be refused and leave the node's digest and application unchanged"
 		}
